@@ -174,6 +174,8 @@ def gen_ustep(rng, n, arity_w=(0.02, 0.52, 0.40, 0.06), pools=None):
 def add_tags(rng, items, p_ignore=0.14, p_other=0.08):
     for it in items:
         r = rng.random()
+        if it.get("tags"):
+            continue  # placed on purpose by a motif
         if r < p_ignore:
             it["tags"] = (IGNORE,)
         elif r < p_ignore + p_other:
@@ -307,6 +309,24 @@ def gen_measured(rng, n, nsteps, max_digits=5, allow_conf=True, allow_ctrl=True,
             motif += [{"t": "C", "cond": {"t": "key", "key": k, "index": -1}, "inner": inner}, {"t": "M", "key": k, "w": (d,)}]
             pos = int(rng.integers(len(steps) + 1))
             steps[pos:pos] = motif
+    if rng.random() < 0.2 and digits + 1 <= max_digits + 2:
+        # diagonal gate, then a non-diagonal operation carrying the ignore tag, then the terminal measurement of that qubit:
+        # passes that reason "diagonal before a measurement" must see the ignored operation as a wall, not as absent
+        cands = [k for k in keys if measured.get(k, (2,)) == (2,)]
+        if cands:
+            k = cands[int(rng.integers(len(cands)))]
+            w = int(rng.integers(n))
+            tail = [{"t": "U", "spec": "H", "p": (), "w": (w,)}]
+            if n >= 2 and rng.random() < 0.4:
+                w2 = [x for x in range(n) if x != w][int(rng.integers(n - 1))]
+                tail += [{"t": "U", "spec": "H", "p": (), "w": (w2,)}, {"t": "U", "spec": "CZ", "p": (), "w": (w, w2)}]
+            else:
+                tail.append({"t": "U", "spec": ["S", "T", "PauliZ"][int(rng.integers(3))], "p": (), "w": (w,)})
+            tail.append({"t": "U", "spec": ["XPow", "H", "YPow"][int(rng.integers(3))], "p": (), "w": (w,), "tags": (IGNORE,)})
+            if tail[-1]["spec"] != "H":
+                tail[-1]["p"] = (0.5, 0.0)
+            tail.append({"t": "M", "key": k, "w": (w,)})
+            steps += tail
     if not any(s["t"] == "M" for s in steps):
         steps.append({"t": "M", "key": keys[0], "w": (int(rng.integers(n)),)})
     return steps
